@@ -159,17 +159,17 @@ func (c *FnCtx) instrMods(fr *Frame, in ssa.Instruction, ms *loopModSet, depth i
 			c.addChanHeaps(ms)
 		}
 	case *ssa.Alloc:
-		ms.heaps["alloc"] = SArr(SInt, SBool)
+		ms.heaps["alloc"] = SInt
 		c.addAddrTargets(fr, ms, x)
 	case *ssa.MakeSlice:
-		ms.heaps["alloc"] = SArr(SInt, SBool)
+		ms.heaps["alloc"] = SInt
 		et := x.Type().Underlying().(*types.Slice).Elem()
 		c.addLoc(ms, "elem$"+typeKey(et), et, true, 0)
 	case *ssa.MakeMap:
-		ms.heaps["alloc"] = SArr(SInt, SBool)
+		ms.heaps["alloc"] = SInt
 		c.addMapHeaps(ms, x.Type())
 	case *ssa.MakeChan:
-		ms.heaps["alloc"] = SArr(SInt, SBool)
+		ms.heaps["alloc"] = SInt
 		c.addChanHeaps(ms)
 		ms.heaps["chan$cap"] = SArr(SInt, SInt)
 	}
@@ -180,7 +180,7 @@ func (c *FnCtx) callMods(fr *Frame, cc *ssa.CallCommon, ms *loopModSet, depth in
 	if b, ok := cc.Value.(*ssa.Builtin); ok {
 		switch b.Name() {
 		case "append":
-			ms.heaps["alloc"] = SArr(SInt, SBool)
+			ms.heaps["alloc"] = SInt
 			if sl, ok := cc.Args[0].Type().Underlying().(*types.Slice); ok {
 				c.addLoc(ms, "elem$"+typeKey(sl.Elem()), sl.Elem(), true, 0)
 			}
@@ -254,7 +254,27 @@ func (c *FnCtx) contractMods(ct *FuncContract, ms *loopModSet) {
 			ms.all = true
 			continue
 		}
+		if m.Text == "atomic(*)" {
+			ms.atomics = true
+			for name, srt := range c.heapNames {
+				if strings.HasPrefix(name, "atomicval$") {
+					ms.heaps[name] = srt
+				}
+			}
+			continue
+		}
 		if call, ok := m.Expr.(*ast.CallExpr); ok {
+			if id, ok := call.Fun.(*ast.Ident); ok && id.Name == "mapof" && len(call.Args) == 1 {
+				inner := Clause{Expr: &ast.IndexExpr{X: call.Args[0], Index: ast.NewIdent("nil")}, Text: m.Text}
+				if names, ok := c.modHeapNames(ct, &inner); ok {
+					for n, s := range names {
+						ms.heaps[n] = s
+					}
+				} else {
+					ms.all = true
+				}
+				continue
+			}
 			if id, ok := call.Fun.(*ast.Ident); ok && id.Name == "atomic" {
 				ms.atomics = true
 				for fam, bt := range map[string]types.BasicKind{"atomic.Uint64": types.Uint64, "atomic.Int64": types.Int64, "atomic.Uint32": types.Uint32, "atomic.Int32": types.Int32} {
@@ -279,7 +299,7 @@ func (c *FnCtx) contractMods(ct *FuncContract, ms *loopModSet) {
 			ms.heaps[n] = s
 		}
 	}
-	ms.heaps["alloc"] = SArr(SInt, SBool)
+	ms.heaps["alloc"] = SInt
 }
 
 func (c *FnCtx) fnMods(fn *ssa.Function, ms *loopModSet, depth int) {
@@ -308,7 +328,7 @@ func (c *FnCtx) fnMods(fn *ssa.Function, ms *loopModSet, depth int) {
 			if a, ok := in.(*ssa.Alloc); ok {
 				et := a.Type().Underlying().(*types.Pointer).Elem()
 				if structOf(et) == nil {
-					ms.heaps["alloc"] = SArr(SInt, SBool)
+					ms.heaps["alloc"] = SInt
 					continue
 				}
 			}
@@ -331,6 +351,12 @@ func (c *FnCtx) havoc(st *State, fr *Frame, ms *loopModSet, why string) {
 			}
 		}
 		c.pinned = true
+		{
+			old := c.allocCur(st)
+			nw := c.vc.Fresh("hv$alloc", SInt)
+			c.vc.Assert(App(SBool, ">=", nw, old))
+			c.heapSet(st, "alloc", nw)
+		}
 	} else {
 		var names []string
 		for n := range ms.heaps {
@@ -340,9 +366,9 @@ func (c *FnCtx) havoc(st *State, fr *Frame, ms *loopModSet, why string) {
 		for _, name := range names {
 			if name == "alloc" {
 				// allocation only grows
-				old := c.heapGet(st, "alloc", SArr(SInt, SBool))
-				nw := c.vc.Fresh("hv$alloc", SArr(SInt, SBool))
-				c.vc.Assert(Term{"(forall ((r Int)) (! (=> (select " + old.S + " r) (select " + nw.S + " r)) :pattern ((select " + nw.S + " r))))", SBool})
+				old := c.allocCur(st)
+				nw := c.vc.Fresh("hv$alloc", SInt)
+				c.vc.Assert(App(SBool, ">=", nw, old))
 				c.heapSet(st, "alloc", nw)
 				continue
 			}
@@ -352,11 +378,14 @@ func (c *FnCtx) havoc(st *State, fr *Frame, ms *loopModSet, why string) {
 		}
 	}
 	if ms.atomics {
-		for name, srt := range c.heapNames {
-			if strings.HasPrefix(name, "atomic$") {
-				st.heap[name] = c.vc.Fresh("hv$"+name, srt)
+		// every atomic family: new epoch (covers families not referenced so far)
+		for name := range st.heap {
+			if atomicHeap(name) {
+				delete(st.heap, name)
 			}
 		}
+		c.epochs++
+		st.aepoch = c.epochs
 		c.atomicsHavocked = true
 	}
 	for a := range ms.cells {
